@@ -48,6 +48,9 @@ pub fn all() -> Vec<(&'static str, Blueprint)> {
         ("x19_one_diamond", x19_one_diamond()),
         ("x20_observer_cycle", x20_observer_cycle()),
         ("x21_singleton_two_scopes", x21_singleton_two_scopes()),
+        ("v18_clone_fanout", v18_clone_fanout()),
+        ("x22_same_diamond_twice", x22_same_diamond_twice()),
+        ("x23_prefix_trailing_slash", x23_prefix_trailing_slash()),
     ]
 }
 
@@ -503,5 +506,36 @@ pub fn x21_singleton_two_scopes() -> Blueprint {
         bp.route(bad::scopes::SC_CHILD);
         bp
     });
+    bp
+}
+
+/// A `clone_if_necessary` value with three by-value consumers whose competing sets overlap across
+/// two control-flow paths (see `shapes::fanout`).
+pub fn v18_clone_fanout() -> Blueprint {
+    let mut bp = Blueprint::new();
+    bp.import(from![pavex, crate::shapes::fanout]);
+    bp.route(crate::shapes::fanout::FO_HANDLER);
+    bp.route(misc::PING);
+    bp
+}
+
+/// Two handlers over the same unsolvable ownership diamond: the same diagnostics twice.
+pub fn x22_same_diamond_twice() -> Blueprint {
+    let mut bp = Blueprint::new();
+    bp.import(from![pavex, crate::bad::diamonds]);
+    bp.route(bad::diamonds::OD_HANDLER);
+    bp.route(bad::diamonds::OD_HANDLER_AGAIN);
+    bp
+}
+
+/// The only problem: a path prefix that ends with a slash.
+pub fn x23_prefix_trailing_slash() -> Blueprint {
+    let mut bp = base();
+    bp.prefix("/api/").nest({
+        let mut bp = Blueprint::new();
+        bp.route(misc::PING);
+        bp
+    });
+    bp.route(misc::TIME);
     bp
 }
